@@ -25,6 +25,9 @@ TRUST = [
     "sklearn StandardScaler / PCA(ev_threshold, full SVD) / KernelDensity(epanechnikov) and scipy jensenshannon are oracles: "
     "num_pcs, window projections, per-sample projections and (metric 'kl') the per-component KDE Jensen-Shannon value are "
     "recomputed by the harness from the raw stream with the same public calls and handed to the model",
+    "Model/Scaler.lean models StandardScaler (mean_, population var_, scale_ = sqrt(var_) with scale 1 for a zero-variance column, transform, "
+    "inverse_transform): tied to sklearn by a differential run on dyadic windows with constant columns (scaler_part); sklearn additionally "
+    "treats a variance within rounding error of 0 as 0 (_is_constant_feature), which exact dyadic data never exercise",
     "the score history is read from the private list `_change_score` (as an observable, never as an oracle)",
     "numpy's summation order inside np.sum (histogram normalisation, intersection) is modelled as a left fold; compared with rel 1e-9",
     "thin-margin rule: a drift decision that differs while the Page-Hinkley margin |diff - theta| is in (0, 1e-9) on the model's or "
@@ -548,7 +551,67 @@ def twin_clause(ctx, cases, impl):
                 break
 
 
+def scaler_part(ctx):
+    """Model/Scaler.lean (what PCACD's online scaling does to a window: fit, transform, inverse_transform incl. the zero-variance
+    rule) against sklearn's StandardScaler on dyadic windows (sums exact), some columns exactly constant, some riding on 2^20;
+    and the round trip inverse_transform(transform(x)) = x that `Props/C11Scaler.lean` proves over the reals."""
+    import pandas as pd
+    from sklearn.preprocessing import StandardScaler
+    rng = np.random.default_rng([ctx.seed, 1111])
+    cases = []
+    for k in range(60 if ctx.quick else 600):
+        r, c = int(rng.integers(2, 61)), int(rng.integers(1, 5))
+        W = np.round(rng.normal(size=(r, c)) * float(rng.choice([1.0, 8.0, 0.25])) * 64) / 64
+        for j in range(c):
+            u = rng.random()
+            if u < .25:
+                W[:, j] = float(rng.integers(-3, 4)) / 4.0            # exactly constant column: scale 1
+            elif u < .35:
+                W[:, j] += 2.0 ** 20
+        rows = np.round(rng.normal(size=(3, c)) * 64) / 64 + W[0]
+        cases.append((W, rows))
+    lines = []
+    for W, rows in cases:
+        lines += ["new scaler", "fit %d %d %s" % (W.shape[0], W.shape[1], bits(W))]
+        lines += ["tr " + bits(x) for x in rows]
+    out = core.run_driver(lines)
+    pos, second = 0, []
+    for W, rows in cases:
+        sc = StandardScaler()
+        try:
+            Z = sc.fit_transform(pd.DataFrame(W))
+            tr = [np.asarray(sc.transform(pd.DataFrame(x.reshape(1, -1)))).ravel() for x in rows]
+            back = [np.asarray(sc.inverse_transform(pd.DataFrame(t.reshape(1, -1)))).ravel() for t in tr]
+        except Exception as ex:
+            ctx.fail(signature={"component": "StandardScaler", "kind": "raised"}, what="sklearn StandardScaler raised " + type(ex).__name__, window=W.tolist())
+            pos += 2 + len(rows); continue
+        parts = out[pos + 1].split(" | ")
+        pos += 2
+        ctx.case(("scaler", W.tobytes()), True)
+        ctx.count("scaler-windows"); ctx.count("scaler-constant-columns", int((W.std(axis=0) == 0).sum()))
+        if len(parts) != 3:
+            ctx.mismatch(component="Scaler", case=W.tolist(), step=0, impl="fit", model=out[pos - 1], what="model rejected the window"); pos += len(rows); continue
+        m_mean, m_var, m_scale = ([core.b2f(t) for t in p.split()] for p in parts)
+        spread = max(1.0, float(np.abs(W).max()))
+        ok = (all(abs(a - b) <= 1e-9 * spread for a, b in zip(m_mean, sc.mean_))
+              and all(abs(a - b) <= 1e-9 * max(1.0, abs(b)) + 1e-12 * spread * spread for a, b in zip(m_var, sc.var_))
+              and all((a == 1.0) == (b == 1.0) and abs(a - b) <= 1e-9 * max(1.0, abs(b)) for a, b in zip(m_scale, sc.scale_)))
+        if not ok:
+            ctx.mismatch(component="Scaler", case=W.tolist(), step=0, impl=[sc.mean_.tolist(), sc.var_.tolist(), sc.scale_.tolist()],
+                         model=[m_mean, m_var, m_scale], what="mean_ / var_ / scale_ (zero-variance rule) differ from Model/Scaler.lean")
+        for x, t, b in zip(rows, tr, back):
+            mt = [core.b2f(v) for v in out[pos].split()]
+            pos += 1
+            if len(mt) != len(t) or not all(abs(a - bb) <= 1e-9 * max(1.0, abs(bb)) + 1e-6 * (spread > 1e5) for a, bb in zip(mt, t)):
+                ctx.mismatch(component="Scaler", case=W.tolist(), step=1, impl=t.tolist(), model=mt, what="transform(row) differs from Model/Scaler.lean")
+            # the theorem's statement on the real scaler: the un-standardised row is the raw row
+            if not all(abs(a - bb) <= 1e-9 * spread for a, bb in zip(b, x)):
+                ctx.fail(signature={"component": "StandardScaler", "kind": "round-trip"}, window=W.tolist(), row=x.tolist(), back=b.tolist(),
+                         what="inverse_transform(transform(row)) is not the row (Props/C11Scaler.lean inverse_transform_row)")
+
+
 def run(ctx):
+    scaler_part(ctx)
     # detector objects are independent of one another (a consequence of "the outputs are a function of the detector's own
     # parameters and history"): solo trace = trace when a second object of the class is updated alternately (impl/zoo.py)
     from impl import zoo as _zoo
